@@ -475,6 +475,27 @@ pub fn run(o: &crate::Opts) {
     }
     counts.push(("random_lines", n));
 
+    // 4a. command words spelled with characters whose Unicode case mapping is an ASCII letter
+    // (KELVIN SIGN K → k, LATIN SMALL LETTER LONG S ſ → S, dotless ı → I, İ → i̇): command names
+    // are matched ASCII-case-insensitively, so none of these spells a command
+    let mut n = 0;
+    for w in WORDS {
+        let mut variants: Vec<String> = Vec::new();
+        for (from, to) in [('k', '\u{212A}'), ('s', '\u{17F}'), ('i', '\u{131}'), ('i', '\u{130}')] {
+            if w.contains(from) {
+                variants.push(w.replacen(from, &to.to_string(), 1));
+                variants.push(w.to_ascii_uppercase().replacen(from.to_ascii_uppercase(), &to.to_string(), 1));
+            }
+        }
+        for v in variants {
+            emit(Case::Line(v.clone()), &mut cap, &mut sink, false, &mut n);
+            emit(Case::Line(format!("{v} x3000")), &mut cap, &mut sink, false, &mut n);
+            emit(Case::Line(format!("{v} add x3002")), &mut cap, &mut sink, false, &mut n);
+            emit(Case::Line(format!("b {v} x3002")), &mut cap, &mut sink, false, &mut n);
+        }
+    }
+    counts.push(("unicode_case_lookalikes", n));
+
     // 4b. very many surplus tokens (counters of 8 bits and the like must not wrap or overflow):
     // a command followed by N space-separated tokens, N around every power of two up to 2^16
     let mut n = 0;
@@ -497,6 +518,26 @@ pub fn run(o: &crate::Opts) {
         }
     }
     counts.push(("many_tokens", n));
+
+    // 4c. scripts longer than any reader's buffer (8 KiB, 64 KiB) with a multi-byte character on
+    // every byte offset around the buffer sizes, delivered on standard input / split
+    let mut n = 0;
+    for size in [8192usize, 16384, 65536] {
+        if size == 65536 && !o.thorough {
+            continue;
+        }
+        for delta in -4i64..=2 {
+            for ch in ["é", "中", "😀"] {
+                let at = (size as i64 + delta) as usize; // byte offset of the character's first byte
+                let head = "echo ";
+                let filler = "a".repeat(at - head.len());
+                let script = format!("{head}{filler}{ch}b\nmove r3 x1234\nprint r3\necho done");
+                emit(Case::Session(None, script.clone().into_bytes()), &mut cap, &mut sink, false, &mut n);
+                emit(Case::Session(Some("help".into()), script.into_bytes()), &mut cap, &mut sink, false, &mut n);
+            }
+        }
+    }
+    counts.push(("long_stdin_scripts", n));
 
     // 5. scripts: every split between argument and stdin, `;` vs newline vs mixed
     let mut n = 0;
